@@ -42,6 +42,7 @@ type event struct {
 	IdleNs int64  `json:"idleNs,omitempty"`
 	Blocked bool  `json:"blocked,omitempty"` // out: a chunk filter on the NAT router discards this datagram; it must leave no trace (no mapping, no permission, no refresh)
 	Race   bool   `json:"race,omitempty"` // out: while it is written, the remote it goes to sends a datagram to the external address this flow had last (inbound and outbound translation of one flow run side by side)
+	Pre    int    `json:"pre,omitempty"` // out, 1:1 mode: this many datagrams from a local IP without a pair are written right before it (the NAT refuses them; what queues up behind them is still forwarded)
 	Form   int    `json:"form,omitempty"` // representation of the destination IP handed to WriteTo: 0 as stored, 1 four-byte, 2 sixteen-byte
 }
 
@@ -104,6 +105,9 @@ func gen(r *harn.Rng, tier string) interface{} {
 			}
 			if r.Bool(0.08) {
 				e.Blocked, e.Race = true, false
+			}
+			if sc.OneToOne > 0 && !e.Blocked && r.Bool(0.3) {
+				e.Pre = r.Pick(2, 2, 3, 5)
 			}
 			sc.Events = append(sc.Events, e)
 			if r.Bool(0.04) {
@@ -308,6 +312,14 @@ func run(env *simrt.Env, sci interface{}) {
 		internals = append(internals, ss...)
 	}
 	internals = internals[:sc.Internal]
+	// 1:1 mode: one more local host, whose address has no pair (the NAT refuses what it sends)
+	var unp *sockT
+	if sc.OneToOne > 0 {
+		if ss := mkHost(lan, "192.168.0.200", 5000); ss != nil {
+			unp = ss[0]
+			defer func() { _ = unp.conn.Close() }()
+		}
+	}
 	// 1.2.3.10 is a textual prefix of 1.2.3.100 and 1.2.3.101: keys built from strings must not confuse them
 	// set 1: addresses that agree in their low 16 bits / differ only in one high octet: keys packed into integers must not truncate them
 	remoteIPs := [][]string{{"1.2.3.100", "1.2.3.10", "1.2.3.101"}, {"1.2.3.100", "1.9.3.100", "1.200.3.100"}, {"11.2.3.100", "1.2.3.100", "1.2.3.10"}}[sc.RemoteSet%3]
@@ -530,6 +542,45 @@ func run(env *simrt.Env, sci interface{}) {
 			}
 			// forget everything the model learned in this phase: these flows are not part of the history
 			env.Sleep(2*L + time.Millisecond)
+			// Once more, with mappings of different age: 65 flows, half a lifetime later the rest (the
+			// ports run out, the last flows are refused). When the 65 oldest have been idle for a
+			// full lifetime their ports are free again: a new flow is translated although the
+			// youngest mappings still have half their lifetime ahead of them.
+			if is != src {
+				quiet = time.Millisecond
+				var tOldest time.Time
+				for p := 0; p < 16390; p++ {
+					plz, _ := mkPayload()
+					_, _ = src.conn.WriteTo(plz, &net.UDPAddr{IP: net.ParseIP("1.2.3.100"), Port: 20000 + p})
+					if p%64 == 0 {
+						settle()
+						if p == 64 {
+							tOldest = env.Now()
+							env.Sleep(L / 2)
+						}
+					}
+				}
+				settle()
+				for _, s := range all {
+					s.read = len(s.inbox)
+				}
+				if d := tOldest.Add(L + time.Millisecond).Sub(env.Now()); d > 0 && d < L/2+time.Second {
+					env.Sleep(d)
+					plz, tagz := mkPayload()
+					_, _ = is.conn.WriteTo(append([]byte(nil), plz...), rs.addr)
+					settle()
+					who, _, ok := collect(tagz, plz)
+					if !ok {
+						return
+					}
+					if len(who) != 1 || who[0] != rs {
+						env.Fail(prop+"/outbound-lost", "every port was taken and new flows had been refused; %v later the 65 oldest mappings have been idle for a full lifetime (%v; their ports are free), yet a datagram of a new flow from %s to the bound socket %s was received by %d sockets", env.Now().Sub(tOldest), L, is.addr, rs.addr, len(who))
+						return
+					}
+					env.Probe("port-freed-by-oldest-mappings")
+				}
+				env.Sleep(2*L + time.Millisecond)
+			}
 		}
 		quiet = 100 * time.Microsecond
 	}
@@ -584,6 +635,15 @@ func run(env *simrt.Env, sci interface{}) {
 						env.Fault("inbound-races-outbound")
 					}
 				}
+			}
+			if e.Pre > 0 && unp != nil {
+				// refused datagrams queue up in front of this one: nobody may receive them (a stray
+				// datagram is reported by collect), and this one is forwarded all the same
+				for k := 0; k < e.Pre; k++ {
+					plx, _ := mkPayload()
+					_, _ = unp.conn.WriteTo(plx, dst)
+				}
+				env.Fault("refused-datagrams-queued-ahead")
 			}
 			u0 := env.Now()
 			if _, err := is.conn.WriteTo(append([]byte(nil), pl...), dst); err != nil {
